@@ -763,6 +763,131 @@ theorem newCSR_perm {rows cols : Nat} {es es' : List (Coo K)} {inc : Bool}
   simp only at hrows ⊢
   rw [hrows]
 
+/-! ### CSMatrix.Merge -/
+
+theorem merge_fst (A B : CSM K) :
+    (A.merge B).1 =
+      { (A.setMajorDim (max A.major B.major)).setMinorDim (max A.minor B.minor) with
+        rows := mergeRows
+          ((A.setMajorDim (max A.major B.major)).setMinorDim (max A.minor B.minor)).rows B.rows } :=
+  rfl
+
+theorem merge_major (A B : CSM K) : (A.merge B).1.major = max A.major B.major := by
+  rw [merge_fst]; simp
+
+theorem merge_minor (A B : CSM K) : (A.merge B).1.minor = max A.minor B.minor := by
+  rw [merge_fst]; simp
+
+theorem merge_snd (A B : CSM K) : (A.merge B).2 = CSM.empty := rfl
+
+theorem merge_hiddenClean {A : CSM K} (hc : HiddenClean A) (B : CSM K) :
+    HiddenClean (A.merge B).1 := by
+  have h := setMinorDim_hiddenClean (setMajorDim_hiddenClean hc (max A.major B.major))
+    (max A.minor B.minor)
+  rw [merge_fst]
+  exact h
+
+theorem merge_length (A B : CSM K) : (A.merge B).1.rows.length = max A.major B.major := by
+  rw [merge_fst]
+  simp only
+  rw [mergeRows_length, setMinorDim_length, setMajorDim_length]
+
+/-- row `i` of the merged matrix is the span merge of the two rows `i` -/
+theorem merge_getD {A B : CSM K} (hA : A.rows.length = A.major) (hc : HiddenClean A)
+    (hB : B.rows.length = B.major) (i : Nat) :
+    (A.merge B).1.rows.getD i [] = mergeSpan (A.rows.getD i []) (B.rows.getD i []) := by
+  rw [merge_fst]
+  simp only
+  rw [mergeRows_getD (by
+    rw [setMinorDim_length, setMajorDim_length, hB]; exact Nat.le_max_right _ _)]
+  rw [setMinorDim_getD_of_le _ (by rw [setMajorDim_minor]; exact Nat.le_max_left _ _),
+    setMajorDim_getD_of_le hA hc (Nat.le_max_left _ _)]
+
+theorem merge_wfm {A B : CSM K} (hA : WFM A) (hc : HiddenClean A) (hB : WFM B) :
+    WFM (A.merge B).1 := by
+  refine ⟨by rw [merge_length, merge_major], ?_⟩
+  rw [rows_wf_iff]
+  intro i
+  rw [merge_getD hA.1 hc hB.1, merge_minor]
+  exact wf_mergeSpan' (wf_mono (WFM.row hA i) (Nat.le_max_left _ _))
+    (wf_mono (WFM.row hB i) (Nat.le_max_right _ _))
+
+theorem merge_den {A B : CSM K} (hA : WFM A) (hc : HiddenClean A) (hB : WFM B) (i j : Nat) :
+    denRows (A.merge B).1.rows i j =
+      if ∃ e ∈ B.rows.getD i [], e.idx = j then denRows B.rows i j else denRows A.rows i j := by
+  unfold denRows
+  rw [merge_getD hA.1 hc hB.1]
+  exact den_mergeSpan' (WFM.row hA i).1 (WFM.row hB i).1 j
+
+/-- which cells a matrix built by `NewCSRMatrix` stores -/
+theorem newCSR_stores {rows cols : Nat} {es : List (Coo K)} {inc : Bool} {i j : Nat} :
+    (∃ x ∈ (CSM.newCSR rows cols es inc).rows.getD i [], x.idx = j) ↔
+      i < rows ∧ ∃ e ∈ es, e.row = i ∧ e.col = j ∧ (e.val ≠ 0 ∨ inc = true) := by
+  rw [newCSR_getD]
+  split
+  · rename_i hi
+    constructor
+    · rintro ⟨x, hx, rfl⟩
+      obtain ⟨e, he, h1, h2, rfl⟩ := mem_bucketRow.mp ((sortByIdx_perm _).mem_iff.mp hx)
+      exact ⟨hi, e, he, h1, rfl, h2⟩
+    · rintro ⟨_, e, he, h1, h2, h3⟩
+      exact ⟨⟨e.col, e.val⟩,
+        (sortByIdx_perm _).mem_iff.mpr (mem_bucketRow.mpr ⟨e, he, h1, h3, rfl⟩), h2⟩
+  · rename_i hi
+    simp [hi]
+
+/-! ### further facts about NewCSRMatrix -/
+
+theorem sortedLe_insertByIdx {e : Entry K} {s : List (Entry K)}
+    (hs : s.Pairwise (fun a b => a.idx ≤ b.idx)) :
+    (insertByIdx e s).Pairwise (fun a b => a.idx ≤ b.idx) := by
+  induction s with
+  | nil => exact List.pairwise_singleton _ _
+  | cons x xs ih =>
+    unfold insertByIdx
+    split
+    · rename_i hlt
+      refine List.pairwise_cons.mpr ⟨?_, hs⟩
+      intro y hy
+      rcases List.mem_cons.mp hy with rfl | hy
+      · omega
+      · have := (List.pairwise_cons.mp hs).1 y hy; omega
+    · rename_i hlt
+      refine List.pairwise_cons.mpr ⟨?_, ih (List.pairwise_cons.mp hs).2⟩
+      intro y hy
+      rcases List.mem_cons.mp ((insertByIdx_perm e xs).mem_iff.mp hy) with rfl | hy
+      · omega
+      · exact (List.pairwise_cons.mp hs).1 y hy
+
+/-- `sortByIdx` always returns an index-sorted list (weakly, when keys repeat) -/
+theorem sortedLe_sortByIdx (l : List (Entry K)) :
+    (sortByIdx l).Pairwise (fun a b => a.idx ≤ b.idx) := by
+  induction l with
+  | nil => exact List.Pairwise.nil
+  | cons e l ih => rw [sortByIdx_cons]; exact sortedLe_insertByIdx ih
+
+theorem newCSR_row_perm (rows cols : Nat) (es : List (Coo K)) (inc : Bool) {i : Nat}
+    (hi : i < rows) :
+    ((CSM.newCSR rows cols es inc).rows.getD i []).Perm (bucketRow inc es i) := by
+  rw [newCSR_getD, if_pos hi]
+  exact sortByIdx_perm _
+
+theorem newCSR_row_sortedLe (rows cols : Nat) (es : List (Coo K)) (inc : Bool) (i : Nat) :
+    ((CSM.newCSR rows cols es inc).rows.getD i []).Pairwise (fun a b => a.idx ≤ b.idx) := by
+  rw [newCSR_getD]
+  split
+  · exact sortedLe_sortByIdx _
+  · exact List.Pairwise.nil
+
+theorem newCSR_no_zero (rows cols : Nat) (es : List (Coo K)) (i : Nat) :
+    ∀ x ∈ (CSM.newCSR rows cols es false).rows.getD i [], x.val ≠ 0 := by
+  intro x hx
+  rw [newCSR_getD] at hx
+  split at hx
+  · obtain ⟨e, _, _, hk, rfl⟩ := mem_bucketRow.mp ((sortByIdx_perm _).mem_iff.mp hx)
+    simpa using hk
+  · simp at hx
+
 end Mx
 
 end EtVerif
